@@ -88,6 +88,17 @@ type vcsSide struct {
 
 var vcsDigits = regexp.MustCompile(`[0-9]+`)
 
+// the strategy text carries cost / row estimates ({0.800x 10 0+1_240}, [nrecs~ 8 cost~ 1_240])
+// that depend on index statistics of the moment (btree shape, background merges), not on the
+// request: only the structure of the strategy (indexes chosen, operations, modes) is compared
+var vcsEstBlock = regexp.MustCompile(`\{[^{}]*\}\s*`)
+var vcsEstNum = regexp.MustCompile(`(nrecs|cost|fixcost|varcost)~?\s*[0-9_.]+`)
+
+func vcsStrategy(s string) string {
+	s = vcsEstBlock.ReplaceAllString(s, "")
+	return vcsEstNum.ReplaceAllString(s, "$1~#")
+}
+
 func vcsErr(msg string) string {
 	msg = strings.TrimSuffix(msg, " (from server)")
 	if strings.Contains(msg, "Packable") {
@@ -219,7 +230,7 @@ func (sd *vcsSide) exec1(op vcsOp) string {
 		}
 	case "QStrategy":
 		if q, ok := vcsPick(sd.qs, op.a); ok && q != nil {
-			return q.Strategy(op.b == 1)
+			return vcsStrategy(q.Strategy(op.b == 1))
 		}
 	case "QRewind":
 		if q, ok := vcsPick(sd.qs, op.a); ok && q != nil {
